@@ -50,7 +50,9 @@ class C15(Prop):
                         out.append(viol("a fan with configured minPwm and maxPwm was put through the RPM-curve measurement", cops, cgo, upto=i,
                                         detail={"minmax_first_start": True}))
                         # known finding: keep scanning this case for other violations
-                    if r.get("res") == "ok" and r.get("rpm") == "1" and (r.get("map") == "1" or d.get("cfgmap") == "1"):
+                    if r.get("res") == "ok":
+                        # the fan has been started (analysed if necessary): until the user discards the data, no later
+                        # start may analyse it again -- whether or not the implementation stored what it measured
                         fresh[f] = False
         return out
 
